@@ -118,11 +118,49 @@ def is_known(prop, v, known):
 
 # ---------------------------------------------------------------- model run + comparison
 
-def run_model(mode, cases_path, out_path):
+def run_model(mode, cases_path, out_path, jobs=None):
+    """run the Lean driver on the case file; the file is split so that all cores are used"""
     drv = os.path.join(LEAN, '.lake', 'build', 'bin', 'drv')
-    with open(cases_path, 'rb') as fin, open(out_path, 'wb') as fout:
-        p = subprocess.run([drv, mode], stdin=fin, stdout=fout, stderr=subprocess.PIPE, timeout=3000)
-    return p.returncode == 0, p.stderr.decode('utf8', 'replace')
+    jobs = jobs or min(16, os.cpu_count() or 4)
+    with open(cases_path, 'rb') as f:
+        lines = f.readlines()
+    n = len(lines)
+    if n < 2000:
+        jobs = 1
+    # interleave-free contiguous chunks keep the output order
+    size = (n + jobs - 1) // jobs if n else 1
+    procs = []
+    for j in range(jobs):
+        chunk = lines[j * size:(j + 1) * size]
+        if not chunk and j > 0:
+            continue
+        cin = '%s.part%d' % (cases_path, j)
+        cout = '%s.part%d' % (out_path, j)
+        with open(cin, 'wb') as f:
+            f.writelines(chunk)
+        fin = open(cin, 'rb')
+        fout = open(cout, 'wb')
+        procs.append((subprocess.Popen([drv, mode], stdin=fin, stdout=fout, stderr=subprocess.PIPE), fin, fout, cin, cout))
+    ok = True
+    errs = ''
+    with open(out_path, 'wb') as out:
+        for p, fin, fout, cin, cout in procs:
+            try:
+                _, e = p.communicate(timeout=3000)
+            except subprocess.TimeoutExpired:
+                p.kill()
+                e = b'timeout'
+                ok = False
+            fin.close()
+            fout.close()
+            if p.returncode != 0:
+                ok = False
+                errs += e.decode('utf8', 'replace')
+            with open(cout, 'rb') as f:
+                shutil.copyfileobj(f, out)
+            os.remove(cin)
+            os.remove(cout)
+    return ok, errs
 
 
 def compare_streams(cases_path, impl_path, model_path, limit=200):
@@ -140,10 +178,11 @@ def compare_streams(cases_path, impl_path, model_path, limit=200):
             compared += 1
             if i != m:
                 # cases outside the property's domain are logged, not enforced
-                dom = '"dom":true' in c
+                dom = (not c.startswith('{')) or '"dom":true' in c
                 nmism += 1
                 if len(mism) < limit:
-                    mism.append({'line': ln, 'case': json.loads(c), 'impl': i, 'model': m, 'in_domain': dom})
+                    case = json.loads(c) if c.startswith('{') else {'q': c.strip()}
+                    mism.append({'line': ln, 'case': case, 'impl': i[:600], 'model': m[:600], 'in_domain': dom})
     return compared, unmod, mism, nmism
 
 
@@ -151,7 +190,7 @@ def group_violations(viol):
     groups = {}
     for v in viol:
         g = groups.setdefault(v['key'], {'first': v, 'count': 0})
-        g['count'] += 1
+        g['count'] = max(g['count'] + 1, v.get('occurrences_in_run', 0))
         # keep the shortest query as representative
         if len(v.get('query', '')) < len(g['first'].get('query', '')):
             g['first'] = v
@@ -306,10 +345,18 @@ def replay_cmd(prop, path):
 
 # ---------------------------------------------------------------- runners
 
-def eval_runner(prop, cfg, tier, seed, wdir, mpv, cov, violations, broken, notes):
-    """generic runner for (query, data) properties: Go generator+impl, Lean model on the same lines."""
+def parse_runner(prop, cfg, tier, seed, wdir, mpv, cov, violations, broken, notes):
+    return eval_runner(prop, cfg, tier, seed, wdir, mpv, cov, violations, broken, notes, cmd='parse', mode='parse')
+
+
+def eval_runner(prop, cfg, tier, seed, wdir, mpv, cov, violations, broken, notes, cmd='eval', mode='eval'):
+    """generic runner: Go generator + implementation, Lean model on the same lines."""
     d = os.path.join(wdir, 'run')
-    p = subprocess.run([mpv, 'eval', prop, d, str(seed), tier], env=go_env(), stdout=subprocess.PIPE, stderr=subprocess.PIPE, timeout=6000)
+    env = go_env()
+    env['MPV_CORPUS_DIR'] = os.path.join(VERIF, 'corpus')
+    t1 = time.time()
+    p = subprocess.run([mpv, cmd, prop, d, str(seed), tier], env=env, stdout=subprocess.PIPE, stderr=subprocess.PIPE, timeout=6000)
+    cov['seconds_impl'] = round(time.time() - t1, 1)
     rep_path = os.path.join(d, 'report.json')
     if p.returncode != 0 or not os.path.exists(rep_path):
         cur = os.path.join(d, 'current.json')
@@ -319,12 +366,17 @@ def eval_runner(prop, cfg, tier, seed, wdir, mpv, cov, violations, broken, notes
                            'query': bytes.fromhex(case['q']).decode('utf8', 'replace') if case else None})
         return
     rep = json.load(open(rep_path))
-    violations.extend(rep['violations'] or [])
+    counts = rep.get('violation_counts') or {}
+    for v in (rep['violations'] or []):
+        v['occurrences_in_run'] = counts.get(v['key'], 1)
+        violations.append(v)
     cov.update(evaluations=rep['evaluations'], distinct_nontrivial=rep['distinct_nontrivial'], distinct=rep['distinct'],
                in_domain=rep['in_domain'], rule=rep['rule'], samples=(rep['samples'] or [])[:8], exhaustive=rep['exhaustive'],
                class_histogram=rep['class_histogram'], outcome_histogram=rep['outcome_histogram'], extra=rep.get('extra', {}))
     # model on the same lines
-    okm, err = run_model('eval', os.path.join(d, 'cases.jsonl'), os.path.join(d, 'model.txt'))
+    t1 = time.time()
+    okm, err = run_model(mode, os.path.join(d, 'cases.jsonl'), os.path.join(d, 'model.txt'))
+    cov['seconds_model'] = round(time.time() - t1, 1)
     if not okm:
         broken.append({'what': 'Lean driver failed on the case file', 'log': err[-1000:]})
         return
@@ -333,7 +385,7 @@ def eval_runner(prop, cfg, tier, seed, wdir, mpv, cov, violations, broken, notes
     indom = [m for m in mism if m['in_domain']]
     if indom:
         broken.append({'what': 'correspondence: the Lean model and the implementation disagree on %d in-domain case(s) (of %d disagreements)' % (len(indom), nmism),
-                       'examples': [{'query': bytes.fromhex(m['case']['q']).decode('utf8', 'replace'), 'data': m['case']['d'], 'impl': m['impl'], 'model': m['model']} for m in indom[:5]]})
+                       'examples': [{'query': bytes.fromhex(m['case']['q']).decode('utf8', 'replace'), 'query_hex': m['case']['q'], 'data': m['case'].get('d'), 'impl': m['impl'], 'model': m['model']} for m in indom[:5]]})
     elif mism:
         notes.append({'what': 'model/implementation differences outside the property domain (logged, not enforced)', 'count': nmism,
                       'examples': [{'query': bytes.fromhex(m['case']['q']).decode('utf8', 'replace'), 'impl': m['impl'], 'model': m['model']} for m in mism[:3]]})
